@@ -80,3 +80,76 @@ Fixpoint tok_outs (fs : list ShellSpec.bytes) (ok : bool) : list sc_out :=
   | [f] => [RNext true f ok]
   | f :: fs' => RNext true f true :: tok_outs fs' ok
   end.
+
+(* ---- sessions over the whole API: Next, Rest, Err, Reset, Scanner.Split, Each ----
+   [s0] is the input a Reset goes back to (the harness resets to a fresh reader of the same
+   input).  Reference readings:
+     - Err: nil while unconsumed input remains; io.EOF once Next has returned false or Rest was
+       called; either when the input is exhausted but no Next has reported false yet (the
+       documentation does not say whether the call that returns the last token already reports
+       io.EOF);
+     - Reset: a new session on [s0];
+     - Scanner.Split: all remaining reference words; afterwards the scanner is at its end, Complete
+       is the flag of the last word (unchanged when there was none), Text is not constrained at that
+       point (as after the first false Next) but stays what it is from then on;
+     - Each with a callback returning false at its [stop]-th call: the first [stop] remaining words
+       when there are that many -- then the scanner is exactly where [stop] calls of Next leave it,
+       Text is the last word passed and Complete its flag -- and otherwise all of them, as for
+       Scanner.Split. *)
+Fixpoint list_bytes_eqb (a b : list (list N)) : bool :=
+  match a, b with
+  | [], [] => true
+  | x :: a', y :: b' => bytes_eqb x y && list_bytes_eqb a' b'
+  | _, _ => false
+  end.
+
+Definition is_nil {A} (l : list A) : bool := match l with [] => true | _ => false end.
+
+(* what a run to the end must report from reference state [q] *)
+Definition ref_to_end (q : ref_state) (toks : list (list N)) (t : list N) (cm : bool) : option ref_state :=
+  match q with
+  | RActive rem c =>
+    let '(fs, ok) := fields (S (length rem)) rem in
+    if list_bytes_eqb toks fs && Bool.eqb cm (match fs with [] => c | _ => ok end)
+    then Some (REnded t cm) else None
+  | REnded t0 c => if is_nil toks && bytes_eqb t t0 && Bool.eqb cm c then Some q else None
+  end.
+
+Definition ref_stepx (s0 : ShellSpec.bytes) (q : ref_state) (op : sc_opx) (o : sc_outx) : option ref_state :=
+  match op, o with
+  | XNext, XRNext ok t cm => ref_step q ONext (RNext ok t cm)
+  | XRest, XRRest r => ref_step q ORest (RRest r)
+  | XErr, XRErr e =>
+    match q with
+    | RActive rem _ => if e then (if is_nil rem then Some q else None) else Some q
+    | REnded _ _ => if e then Some q else None
+    end
+  | XReset, XRReset => Some (RActive s0 true)
+  | XSplit, XRSplit toks t cm => ref_to_end q toks t cm
+  | XEach stop, XREach toks t cm =>
+    match q with
+    | RActive rem c =>
+      let '(fs, ok) := fields (S (length rem)) rem in
+      if Nat.ltb 0 stop && Nat.leb stop (length fs) then
+        let okk := if Nat.eqb stop (length fs) then ok else true in
+        if list_bytes_eqb toks (firstn stop fs) && bytes_eqb t (last toks []) && Bool.eqb cm okk
+        then Some (RActive (ref_rest stop rem) okk) else None
+      else ref_to_end q toks t cm
+    | REnded _ _ => ref_to_end q toks t cm
+    end
+  | _, _ => None
+  end.
+
+Fixpoint session_fromx (s0 : ShellSpec.bytes) (q : ref_state) (ops : list sc_opx) (outs : list sc_outx) : bool :=
+  match ops, outs with
+  | [], [] => true
+  | op :: ops', o :: outs' =>
+    match ref_stepx s0 q op o with
+    | Some q' => session_fromx s0 q' ops' outs'
+    | None => false
+    end
+  | _, _ => false
+  end.
+
+Definition session_okx (s : ShellSpec.bytes) (ops : list sc_opx) (outs : list sc_outx) : bool :=
+  session_fromx s (RActive s true) ops outs.
